@@ -139,8 +139,14 @@ def build(skel, rng: random.Random):
     page = pg.Page(title_words=[W("Title")] + d.words("title", file_keys, 0, 3))
     if rng.random() < 0.4:
         page.title_date = d.day()
-    for j in range(rng.choice([0, 0, 1, 2])):
-        hl = [W("more")] + d.words(f"hl{j}", file_keys, 0, 3)
+    if rng.random() < 0.12:
+        # the title line may be a bare '#': it still IS the title line (nothing on later lines becomes page metadata)
+        page.title_words, page.title_date = [], None
+        file_keys.clear()
+    for j in range(rng.choice([0, 0, 1, 2]) if page.title_words else rng.choice([1, 2, 3])):
+        hl = ([W("more")] if rng.random() < 0.8 else []) + d.words(f"hl{j}", file_keys, 0, 3)
+        if not page.title_words and j > 0 and rng.random() < 0.3:
+            hl = []  # further bare '#' lines
         if rng.random() < 0.3:
             hl.append(W(d.day().isoformat(), form="date_in_later_header_line"))
         page.header_lines.append(hl)
